@@ -249,3 +249,147 @@ Example C18_example_errors :
   generate_pkg last_segment w_target all_fixed
     [mk_tinput (bs "k") true [(bs "k", RIdent (Some ([], bs "int")))] None [] []; ex_ti] [] [] = OutErr EMustStruct.
 Proof. split; vm_compute; reflexivity. Qed.
+
+(* ================================================================================================================
+   The copy-field helper is modelled twice (here, and in Model/DeepCopy.v for C17).  Through the adapter of
+   Model/Generators.v the two models are one: same statement for every field of the common domain, partialstruct's
+   Skip / FieldContext callbacks being the only difference; hence C17's heap-level theorems hold of the DeepCopyAs /
+   DeepCopyIntoAs bodies generated here (C18_copy above is stated on a simple value model only).
+
+   [fty17] translates a field type (defined on basic, any / interface, error, named types, slices and maps of scalars —
+   C17's grammar; pointer and array fields and containers of non-scalars are outside it), [msig17] a method signature
+   (DeepCopyAs -> DeepCopy, DeepCopyIntoAs -> DeepCopyInto: the helper is parametric in the two names), [stmt17] a
+   statement; [agrees target G t]: C17's type graph G declares a same-package named type t with the kind and the
+   explicit methods C18's description carries (a named interface type has none).
+   ================================================================================================================ *)
+Require Import Gengo.Model.Generators Gengo.Proofs.Generators.
+
+Theorem Copy_c17_is_c18_field_stmt : forall L target c, fx_errnil c = true ->
+  forall G f ft,
+    fty17 L target c (f_ty f) = Some ft ->
+    agrees target G (f_ty f) ->
+    exists s18 i s17 dep,
+      field_stmt L target c false f = GOk s18 i /\
+      DC.field_stmt DC.all_fixed G [] (f_name f) ft = Ok (s17, dep) /\
+      stmt17 s18 = s17.
+Proof. exact field_stmt_agree. Qed.
+Print Assumptions Copy_c17_is_c18_field_stmt.
+
+(* outside the common domain the statement depends on the top-level constructor only (the Go type switch) *)
+Theorem Copy_outside_common_domain : forall L target c f b,
+    fty17 L target c (f_ty f) = None ->
+    exists s i, field_stmt L target c b f = GOk s i /\
+      match f_ty f with
+      | TSlice _ => exists o, s = SCopySlice (f_name f) o
+      | TMap _ _ => exists o, s = SCopyMap (f_name f) o
+      | _ => s = SAssign (f_name f)
+      end.
+Proof. exact outside_domain_stmt. Qed.
+Print Assumptions Copy_outside_common_domain.
+
+(* the callbacks, exactly: FieldContext is consulted inside `case *types.Named` only (error included) ... *)
+Theorem Copy_callback_ignored_unless_named : forall L target c f,
+    is_named_ty (f_ty f) = false -> field_stmt L target c true f = field_stmt L target c false f.
+Proof. exact callback_not_named. Qed.
+Print Assumptions Copy_callback_ignored_unless_named.
+
+(* ... where the context it returns selects in.F.DeepCopyIntoAs(&out.F) whatever the type is (InSamePkg is false in it:
+   no "always gen", no OnLocalDep, no map refinement); Skip removes the omitted fields before the helper sees them
+   (C18_copy / gen_stmts_loop_spec).  C17's model reads the same statement off a struct whose replaced fields have the
+   replacement type, a target-package struct or scalar type ([field17], [agrees_field]). *)
+Theorem Copy_callback_forces_into : forall L target c f,
+    is_named_ty (f_ty f) = true ->
+    field_stmt L target c true f = GOk (SCallInto (f_name f) dc_into_name) [].
+Proof. exact callback_named. Qed.
+Print Assumptions Copy_callback_forces_into.
+
+(* the whole body of DeepCopyIntoAs is C17's fields_copy of the struct that partialstruct emits *)
+Theorem C18_stmts_are_c17_fields_copy : forall L target c, fx_errnil c = true ->
+  forall ti g i fs G cfs,
+    generate_type L target c ti = TGen g i ->
+    ti_under ti = Some fs ->
+    fields17 L target c (replace_map (ti_replace ti) []) (filter (keep (ti_omit ti)) fs) = Some cfs ->
+    (forall f, In f fs -> keep (ti_omit ti) f = true -> agrees_field target G (replace_map (ti_replace ti) []) f) ->
+    map fst cfs = map f_name (filter (keep (ti_omit ti)) fs) /\
+    exists deps, DC.fields_copy DC.all_fixed G [] cfs = Ok (map stmt17 (g_stmts g), deps).
+Proof. exact stmts_agree. Qed.
+Print Assumptions C18_stmts_are_c17_fields_copy.
+
+(* TRANSFER.  DeepCopyAs on C17's heap ([deep_copy_as_heap]: nil -> nil; out := new(Origin); the generated statements,
+   executed by C17's exec_body; the origin value is represented by its retained fields — omitted ones are never
+   assigned, C18_copy).  G declares the generated struct with the translated fields and lies in C17's domain; every
+   method the body calls ([rec]: the replacement's or a same-package type's DeepCopyIntoAs; [ms]: the methods that
+   exist) copies faithfully ([rec_spec], the assumption C18's conv_for made informally).  Then for every well-typed
+   value: the result is deeply equal, every slice / map cell reachable from it is fresh, and no write through any of
+   them changes the source.  Scope = C17's heap model: cells hold scalars; named non-struct types are scalars. *)
+Theorem C18_copy_unshared : forall L target c, fx_errnil c = true ->
+  forall ti g i fs G ms rec bound cfs d tp,
+    generate_type L target c ti = TGen g i ->
+    ti_under ti = Some fs ->
+    fields17 L target c (replace_map (ti_replace ti) []) (filter (keep (ti_omit ti)) fs) = Some cfs ->
+    (forall f, In f fs -> keep (ti_omit ti) f = true -> agrees_field target G (replace_map (ti_replace ti) []) f) ->
+    Gengo.Proofs.DeepCopySem.dom G ->
+    DC.lookup G (g_name g) = Some d -> DC.d_kind d = DC.DStruct tp cfs ->
+    Gengo.Proofs.DeepCopySem.rec_spec G ms rec bound ->
+    callees_as_ok G ms cfs ->
+    forall h,
+      deep_copy_as_heap rec G ms g None h = Ok (None, h) /\
+      forall fin, Gengo.Proofs.DeepCopySem.wt_fields G h cfs fin -> Gengo.Proofs.DeepCopySem.depth_fields fin < bound ->
+        exists fout t,
+          deep_copy_as_heap rec G ms g (Some fin) h = Ok (Some (DC.VStruct fout), h ++ t) /\
+          DC.snapshot (h ++ t) (DC.VStruct fout) = DC.snapshot h (DC.VStruct fin) /\
+          (forall a, In a (DC.locs (DC.VStruct fout)) -> List.length h <= a < List.length (h ++ t)) /\
+          (forall a cell, In a (DC.locs (DC.VStruct fout)) ->
+             DC.snapshot (DC.write (h ++ t) a cell) (DC.VStruct fin) = DC.snapshot h (DC.VStruct fin)).
+Proof. exact copy_as_transfer. Qed.
+Print Assumptions C18_copy_unshared.
+
+(* ... and with NO assumption on any method when the body calls none (no replaced named field; same-package named
+   field types are interfaces): assignments and make+copy / make+range only *)
+Theorem C18_copy_unshared_plain : forall L target c, fx_errnil c = true ->
+  forall ti g i fs G cfs d tp,
+    generate_type L target c ti = TGen g i ->
+    ti_under ti = Some fs ->
+    fields17 L target c (replace_map (ti_replace ti) []) (filter (keep (ti_omit ti)) fs) = Some cfs ->
+    (forall f, In f fs -> keep (ti_omit ti) f = true -> agrees_field target G (replace_map (ti_replace ti) []) f) ->
+    Gengo.Proofs.DeepCopySem.dom G ->
+    DC.lookup G (g_name g) = Some d -> DC.d_kind d = DC.DStruct tp cfs ->
+    (forall f c0 args, In (f, DC.FNamed c0 args) cfs -> DC.is_iface (DC.lookup G c0) = true) ->
+    forall rec h fin, Gengo.Proofs.DeepCopySem.wt_fields G h cfs fin ->
+      exists fout t,
+        deep_copy_as_heap rec G [] g (Some fin) h = Ok (Some (DC.VStruct fout), h ++ t) /\
+        DC.snapshot (h ++ t) (DC.VStruct fout) = DC.snapshot h (DC.VStruct fin) /\
+        (forall a, In a (DC.locs (DC.VStruct fout)) -> List.length h <= a < List.length (h ++ t)) /\
+        (forall a cell, In a (DC.locs (DC.VStruct fout)) ->
+           DC.snapshot (DC.write (h ++ t) a cell) (DC.VStruct fin) = DC.snapshot h (DC.VStruct fin)).
+Proof. exact copy_as_unshared_plain. Qed.
+Print Assumptions C18_copy_unshared_plain.
+
+(* non-vacuity: scalar, omitted slice, slice, map of a foreign scalar, replaced struct field, error, same-package
+   interface — generated, translated, in C17's domain, executed on a heap *)
+Example C18_example_c17_view : exists g i,
+  generate_type last_segment w_target all_fixed ex17_ti = TGen g i /\ g_name g = bs "X" /\
+  map stmt17 (g_stmts g) =
+    [ DC.SAssign (bs "A"); DC.SCopySlice (bs "S") (bs "[]string"); DC.SCopyMap (bs "M") (bs "map[string]lib.Code");
+      DC.SCallInto (bs "I"); DC.SAssign (bs "E"); DC.SAssign (bs "N") ] /\
+  fields17 last_segment w_target all_fixed ex17_repl ex17_kept = Some ex17_cfs /\
+  helper17_body last_segment w_target all_fixed ex17_ti (bs "X") = Some (Ok (map stmt17 (g_stmts g))).
+Proof. exact ex17_generated. Qed.
+
+Example C18_example_c17_hypotheses :
+  (forall f, In f ex17_fields -> keep (ti_omit ex17_ti) f = true -> agrees_field w_target ex17_G ex17_repl f) /\
+  Gengo.Proofs.DeepCopySem.dom ex17_G.
+Proof. split; [exact ex17_agrees|exact ex17_dom]. Qed.
+
+Example C18_example_c17_copy :
+  match generate_type last_segment w_target all_fixed ex17_ti with
+  | TGen g _ =>
+      match deep_copy_as_heap (fun _ v _ h => Ok (v, h)) ex17_G [] g (Some ex17_fin) ex17_heap with
+      | Ok (Some v', h') =>
+          DC.snapshot h' v' = DC.snapshot ex17_heap (DC.VStruct ex17_fin) /\ DC.locs v' = [2; 3] /\
+          DC.snapshot (DC.write h' 2 (DC.CSlice [])) (DC.VStruct ex17_fin) = DC.snapshot ex17_heap (DC.VStruct ex17_fin)
+      | _ => False
+      end
+  | _ => False
+  end.
+Proof. exact ex17_copy. Qed.
